@@ -366,4 +366,66 @@ theorem c14_switch_rebuild_new_numbers_order_free (cfg : RichCfg) (secs : List R
   rw [rebuildSwnm_eq_core] at h1 h2
   exact c14_new_switch_numbers_order_free cfg _ _ _ hperm h1 h2
 
+/-! ### the reserved slot ("Anywhere", 64) at the level of the whole location rebuild -/
+
+theorem carriedIdx_append (a b : List Req) : carriedIdx (a ++ b) = carriedIdx a ++ carriedIdx b := by
+  induction a with
+  | nil => rfl
+  | cons r rs ih => cases r <;> simp [carriedIdx, ih]
+
+theorem freshCount_append (a b : List Req) : freshCount (a ++ b) = freshCount a + freshCount b := by
+  induction a with
+  | nil => simp [freshCount]
+  | cons r rs ih => cases r <;> simp [freshCount, ih] <;> omega
+
+/-- the request list the rebuild hands to the allocator is already in carried-first order -/
+theorem carriedFirst_reqsOf (b : List RLoc) : carriedFirst (reqsOf b) = reqsOf b := by
+  have hs : ∀ (l : List RLoc), (∀ x ∈ l, x.idx.isSome = true) →
+      carriedIdx (l.map fun l => match l.idx with | some i => Req.carry i | none => Req.fresh) = l.filterMap (·.idx) ∧
+      freshCount (l.map fun l => match l.idx with | some i => Req.carry i | none => Req.fresh) = 0 ∧
+      (l.map fun l => match l.idx with | some i => Req.carry i | none => Req.fresh) = (l.filterMap (·.idx)).map Req.carry := by
+    intro l
+    induction l with
+    | nil => intro _; simp [carriedIdx, freshCount]
+    | cons x xs ih =>
+      intro hall
+      obtain ⟨h1, h2, h3⟩ := ih (fun y hy => hall y (List.mem_cons_of_mem _ hy))
+      have hx := hall x (by simp)
+      cases hxi : x.idx with
+      | none => rw [hxi] at hx; simp at hx
+      | some i => exact ⟨by simp [carriedIdx, hxi, h1], by simp [freshCount, hxi, h2], by simp [hxi, h3]⟩
+  have hn : ∀ (l : List RLoc), (∀ x ∈ l, x.idx.isNone = true) →
+      carriedIdx (l.map fun l => match l.idx with | some i => Req.carry i | none => Req.fresh) = [] ∧
+      freshCount (l.map fun l => match l.idx with | some i => Req.carry i | none => Req.fresh) = l.length ∧
+      (l.map fun l => match l.idx with | some i => Req.carry i | none => Req.fresh) = List.replicate l.length Req.fresh := by
+    intro l
+    induction l with
+    | nil => intro _; simp [carriedIdx, freshCount]
+    | cons x xs ih =>
+      intro hall
+      obtain ⟨h1, h2, h3⟩ := ih (fun y hy => hall y (List.mem_cons_of_mem _ hy))
+      have hx := hall x (by simp)
+      cases hxi : x.idx with
+      | some i => rw [hxi] at hx; simp at hx
+      | none => exact ⟨by simp [carriedIdx, hxi, h1], by simp [freshCount, hxi, h2], by simp [hxi, h3, List.replicate_succ]⟩
+  obtain ⟨a1, a2, a3⟩ := hs (b.filter (·.idx.isSome)) (fun x hx => (List.mem_filter.mp hx).2)
+  obtain ⟨b1, b2, b3⟩ := hn (b.filter (·.idx.isNone)) (fun x hx => (List.mem_filter.mp hx).2)
+  unfold carriedFirst reqsOf placementOf
+  rw [List.map_append, carriedIdx_append, freshCount_append, a1, a2, b1, b2, a3, b3]
+  simp
+
+/-- **the reserved slot is never given to a new location by a save**: in the location rebuild, an entry of the
+batch that carried no index is never placed on the reserved number (64, "Anywhere") — for every map and order -/
+theorem c09_rebuild_never_places_new_location_on_reserved (cfg : RichCfg) (table b : List RLoc)
+    {ress : List Res} {st : AllocSt}
+    (h : allocate cfg.mrgnCfg (table.filterMap (·.idx)) (reqsOf b) = .ok (ress, st))
+    (k : Nat) (hk : k < (placementOf b).length) (hk' : k < ress.length) (s : Nat)
+    (hnone : (placementOf b)[k].idx = none) (hp : ress[k] = .placed s) : cfg.mrgnCfg.reserved ≠ some s := by
+  have hlen : k < (carriedFirst (reqsOf b)).length := by rw [carriedFirst_reqsOf]; simpa [reqsOf] using hk
+  refine Props.C09.c09_reserved_never_allocated cfg.mrgnCfg _ (reqsOf b) h k hlen hk' s ?_ hp
+  have : (carriedFirst (reqsOf b))[k] = (reqsOf b)[k]'(by simpa [reqsOf] using hk) := by
+    congr 1; exact carriedFirst_reqsOf b
+  rw [this]
+  simp [reqsOf, hnone]
+
 end Richchk.Props.C14
